@@ -546,6 +546,20 @@ module Z =
                  | Zneg q0 -> Coq_Pos.eqb p q0
                  | _ -> false)
 
+  (** val max : z -> z -> z **)
+
+  let max n m =
+    match compare n m with
+    | Lt -> m
+    | _ -> n
+
+  (** val min : z -> z -> z **)
+
+  let min n m =
+    match compare n m with
+    | Gt -> m
+    | _ -> n
+
   (** val abs : z -> z **)
 
   let abs = function
@@ -612,10 +626,37 @@ module Z =
           | _ -> ((opp (add q0 (Zpos XH))), (sub b r)))
        | Zneg b' -> let (q0, r) = pos_div_eucl a' (Zpos b') in (q0, (opp r)))
 
+  (** val div : z -> z -> z **)
+
+  let div a b =
+    let (q0, _) = div_eucl a b in q0
+
   (** val modulo : z -> z -> z **)
 
   let modulo a b =
     let (_, r) = div_eucl a b in r
+
+  (** val even : z -> bool **)
+
+  let even = function
+  | Z0 -> true
+  | Zpos p -> (match p with
+               | XO _ -> true
+               | _ -> false)
+  | Zneg p -> (match p with
+               | XO _ -> true
+               | _ -> false)
+
+  (** val odd : z -> bool **)
+
+  let odd = function
+  | Z0 -> false
+  | Zpos p -> (match p with
+               | XO _ -> false
+               | _ -> true)
+  | Zneg p -> (match p with
+               | XO _ -> false
+               | _ -> true)
 
   (** val ggcd : z -> z -> z * (z * z) **)
 
@@ -690,6 +731,12 @@ let rec map f = function
 let rec flat_map f = function
 | [] -> []
 | x :: t -> app (f x) (flat_map f t)
+
+(** val fold_right : ('a2 -> 'a1 -> 'a1) -> 'a1 -> 'a2 list -> 'a1 **)
+
+let rec fold_right f a0 = function
+| [] -> a0
+| b :: t -> f b (fold_right f a0 t)
 
 (** val forallb : ('a1 -> bool) -> 'a1 list -> bool **)
 
@@ -1755,6 +1802,176 @@ let wave_mode k ii s c rho dt ep em is_dc h v =
   let h' = k.odiv w' (k.omul (k.omul ii c) g) in
   ((if is_dc then k.oadd h' (k.omul dt v) else h'), v')
 
+(** val fftfreq : z -> z -> z **)
+
+let fftfreq n j =
+  if Z.leb j (Z.div (Z.sub n (Zpos XH)) (Zpos (XO XH))) then j else Z.sub j n
+
+(** val rfftfreq : z -> z -> z **)
+
+let rfftfreq _ j =
+  j
+
+(** val mesh_axis : bool -> nat -> nat -> nat **)
+
+let mesh_axis xy d c =
+  if (&&) xy (Nat.leb (S (S O)) d)
+  then (match c with
+        | O -> S O
+        | S n -> (match n with
+                  | O -> O
+                  | S _ -> c))
+  else c
+
+(** val rfft_component : bool -> nat -> nat **)
+
+let rfft_component xy d =
+  if (&&) xy (Nat.eqb d (S (S O))) then O else sub d (S O)
+
+(** val wn_1d : bool -> nat -> z -> nat -> z -> z **)
+
+let wn_1d xy d n c j =
+  if Nat.eqb c (rfft_component xy d) then rfftfreq n j else fftfreq n j
+
+(** val wavenumber : bool -> nat -> z -> nat -> z list -> z **)
+
+let wavenumber xy d n c idx =
+  wn_1d xy d n c (nth (mesh_axis xy d c) idx Z0)
+
+(** val wn_axis_len : bool -> nat -> z -> nat -> z **)
+
+let wn_axis_len xy d n a =
+  if Nat.eqb (mesh_axis xy d a) (rfft_component xy d)
+  then Z.add (Z.div n (Zpos (XO XH))) (Zpos XH)
+  else n
+
+(** val wavenumber_shape : nat -> z -> z list **)
+
+let wavenumber_shape d n =
+  app (repeat n (sub d (S O)))
+    ((Z.add (Z.div n (Zpos (XO XH))) (Zpos XH)) :: [])
+
+(** val wn : nat -> z -> nat -> z list -> z **)
+
+let wn d n c idx =
+  wavenumber false d n c idx
+
+(** val wnvec : nat -> z -> z list -> z list **)
+
+let wnvec d n idx =
+  map (fun c -> wn d n c idx) (seq O d)
+
+(** val low_pass_axis : nat -> z -> z -> z list -> bool **)
+
+let low_pass_axis d n cutoff idx =
+  forallb (fun k -> Z.leb (Z.abs k) cutoff) (wnvec d n idx)
+
+(** val norm2 : z list -> z **)
+
+let norm2 k =
+  fold_right (fun x a -> Z.add (Z.mul x x) a) Z0 k
+
+(** val low_pass_radial : nat -> z -> z -> z list -> bool **)
+
+let low_pass_radial d n cutoff idx =
+  (&&) (Z.leb Z0 cutoff) (Z.leb (norm2 (wnvec d n idx)) (Z.mul cutoff cutoff))
+
+(** val oddball_mask : nat -> z -> z list -> bool **)
+
+let oddball_mask d n idx =
+  if Z.odd n
+  then true
+  else low_pass_axis d n
+         (Z.sub (Z.sub (Z.add (Z.div n (Zpos (XO XH))) (Zpos XH)) (Zpos XH))
+           (Zpos XH)) idx
+
+(** val axis_plain : z -> z -> bool -> bool **)
+
+let axis_plain n k is_rfft_axis =
+  (||) (Z.eqb k Z0)
+    ((&&) (Z.even n)
+      (if is_rfft_axis
+       then Z.eqb k (Z.div n (Zpos (XO XH)))
+       else Z.eqb k (Z.div (Z.opp n) (Zpos (XO XH)))))
+
+(** val scaling_halvings : nat -> z -> z -> z -> z list -> z **)
+
+let scaling_halvings d n dr dother idx =
+  fold_right Z.add Z0
+    (map (fun c ->
+      let last = Nat.eqb c (sub d (S O)) in
+      if axis_plain n (wn d n c idx) last
+      then Z0
+      else if Z.eqb (if last then dr else dother) (Zpos (XO XH))
+           then Zpos XH
+           else Z0) (seq O d))
+
+(** val mode_denoms : z -> z * z **)
+
+let mode_denoms = function
+| Zpos p ->
+  (match p with
+   | XI p0 ->
+     (match p0 with
+      | XI p1 ->
+        (match p1 with
+         | XO p2 ->
+           (match p2 with
+            | XH -> ((Zpos (XO XH)), (Zpos XH))
+            | _ -> ((Zpos (XO XH)), (Zpos (XO XH))))
+         | _ -> ((Zpos (XO XH)), (Zpos (XO XH))))
+      | _ -> ((Zpos (XO XH)), (Zpos (XO XH))))
+   | XO p0 ->
+     (match p0 with
+      | XI p1 ->
+        (match p1 with
+         | XO p2 ->
+           (match p2 with
+            | XH -> ((Zpos XH), (Zpos XH))
+            | _ -> ((Zpos (XO XH)), (Zpos (XO XH))))
+         | _ -> ((Zpos (XO XH)), (Zpos (XO XH))))
+      | _ -> ((Zpos (XO XH)), (Zpos (XO XH))))
+   | XH -> ((Zpos (XO XH)), (Zpos (XO XH))))
+| _ -> ((Zpos (XO XH)), (Zpos (XO XH)))
+
+(** val slice_left : z -> z **)
+
+let slice_left n =
+  if Z.even n
+  then Z.div n (Zpos (XO XH))
+  else Z.add (Z.div n (Zpos (XO XH))) (Zpos XH)
+
+(** val slice_right : z -> z **)
+
+let slice_right n =
+  Z.div n (Zpos (XO XH))
+
+(** val in_left : z -> z -> z -> bool **)
+
+let in_left n len j =
+  (&&) (Z.leb Z0 j) (Z.ltb j (Z.min (slice_left n) len))
+
+(** val in_right : z -> z -> z -> bool **)
+
+let in_right n len j =
+  (&&) (Z.leb (Z.max (Z.sub len (slice_right n)) Z0) j) (Z.ltb j len)
+
+(** val in_last : z -> z -> z -> bool **)
+
+let in_last n len j =
+  (&&) (Z.leb Z0 j)
+    (Z.ltb j (Z.min (Z.add (Z.div n (Zpos (XO XH))) (Zpos XH)) len))
+
+(** val wrap_index : z -> z -> z **)
+
+let wrap_index n j =
+  Z.modulo j n
+
+(** val dealias_keeps : z -> z -> z -> z -> bool **)
+
+let dealias_keeps p q0 n k =
+  Z.leb (Z.mul q0 (Z.abs k)) (Z.sub (Z.mul p (Z.div n (Zpos (XO XH)))) q0)
+
 (** val aff : z -> z -> z -> z **)
 
 let aff a b u =
@@ -2383,6 +2600,74 @@ let run_conv a =
         unqcs (normalize_coefficients qcOps (Obj.magic x) (Obj.magic y) l2))
    | _ -> [])
 
+(** val run_c04 : z -> q list -> q list **)
+
+let run_c04 sub0 a =
+  let z0 = fun i -> qz (getq a i) in
+  let b = fun i -> qb (getq a i) in
+  let n = fun i -> qn (getq a i) in
+  (match sub0 with
+   | Zpos p ->
+     (match p with
+      | XI p0 ->
+        (match p0 with
+         | XI p1 ->
+           (match p1 with
+            | XH -> (zq (wrap_index (z0 O) (z0 (S O)))) :: []
+            | _ -> [])
+         | XO p1 ->
+           (match p1 with
+            | XI _ -> []
+            | XO p2 ->
+              (match p2 with
+               | XH -> map zq (wavenumber_shape (n O) (z0 (S O)))
+               | _ -> [])
+            | XH ->
+              let dd = mode_denoms (z0 (S (S O))) in
+              (zq
+                (scaling_halvings (n O) (z0 (S O)) (fst dd) (snd dd)
+                  (zs (skipn (S (S (S O))) a)))) :: [])
+         | XH ->
+           (bq
+             (if b O
+              then low_pass_radial (n (S O)) (z0 (S (S O)))
+                     (z0 (S (S (S O)))) (zs (skipn (S (S (S (S O)))) a))
+              else low_pass_axis (n (S O)) (z0 (S (S O))) (z0 (S (S (S O))))
+                     (zs (skipn (S (S (S (S O)))) a)))) :: [])
+      | XO p0 ->
+        (match p0 with
+         | XI p1 ->
+           (match p1 with
+            | XH ->
+              (bq
+                (match z0 (S (S O)) with
+                 | Z0 -> in_left (z0 O) (z0 (S O)) (z0 (S (S (S O))))
+                 | Zpos p2 ->
+                   (match p2 with
+                    | XH -> in_right (z0 O) (z0 (S O)) (z0 (S (S (S O))))
+                    | _ -> in_last (z0 O) (z0 (S O)) (z0 (S (S (S O)))))
+                 | Zneg _ -> in_last (z0 O) (z0 (S O)) (z0 (S (S (S O)))))) :: []
+            | _ -> [])
+         | XO p1 ->
+           (match p1 with
+            | XI _ -> []
+            | XO p2 ->
+              (match p2 with
+               | XH ->
+                 (bq
+                   (dealias_keeps (z0 O) (z0 (S O)) (z0 (S (S O)))
+                     (z0 (S (S (S O)))))) :: []
+               | _ -> [])
+            | XH ->
+              (bq (oddball_mask (n O) (z0 (S O)) (zs (skipn (S (S O)) a)))) :: [])
+         | XH ->
+           (zq (wn_axis_len (b O) (n (S O)) (z0 (S (S O))) (n (S (S (S O)))))) :: [])
+      | XH ->
+        (zq
+          (wavenumber (b O) (n (S O)) (z0 (S (S O))) (n (S (S (S O))))
+            (zs (skipn (S (S (S (S O)))) a)))) :: [])
+   | _ -> [])
+
 (** val run : z -> q list -> q list **)
 
 let run id a =
@@ -2421,7 +2706,8 @@ let run id a =
                            | XH -> run_c20 sub0 a
                            | _ -> [])
                | _ -> [])
-            | _ -> [])
+            | XO _ -> []
+            | XH -> run_c04 sub0 a)
          | XH -> run_c02 sub0 a)
       | XH ->
         (match sub0 with
